@@ -69,6 +69,8 @@ FIELDS = ['count', 'name', 'person', 'person.name', 'person.age + 1', 'person.ta
           # parts that open a scope of their own still see the frame's variables
           'sum(d * count for d in data)', 'max((len(name) + d for d in data), default=count)',
           'sorted(w + name for w in WORDS)',
+          # ... and the module's: a global read only inside the nested scope
+          'sum(d * LIMIT for d in data)', 'sorted(shout(w) for w in [name, "b"])', '[WORDS[d % 3] for d in data]',
           # empty containers, stored and freshly made
           'data * 0', 'list()', 'dict()', 'tuple(data)', 'set()', 'sorted(data) * 0', 'dict(person.tags)']
 FAILING = ['nope_zz', 'person.missing', 'data[99]', '1/0', 'person.tags["zz"]', 'int(name)', 'weird.attr', 'count.x']
